@@ -355,6 +355,15 @@ def plan(ctx):
                                             'the message #a " %s " #b, each operand evaluated once' % RELS[n],
                                 tier='quick' if ty in ('int64_t', 'double') else 'thorough',
                                 replay=Replay(mode='macro', extra=[n, ty], **RP)))
+    # operand hygiene: operands whose top-level operator (?:) binds looser than the relational operators
+    for n in RELS:
+        for ty in ('int64_t', 'double'):
+            groups.append(Group(name='UnitTest.macro.expect_%s.operand-hygiene[%s]' % (n, ty), harness='harness/C19/macros.c', entry='h_macro_hyg_' + n,
+                                function='expect_%s' % n, replace=['expect_generic'], kind='lemma', defines=['T=' + ty], min_post=5,
+                                clause_note='operands x ? a : a2 and y ? b : b2 (top-level operator looser than %s): the verbatim macro compares the '
+                                            'values of its two operands' % RELS[n][0],
+                                tier='quick' if ty == 'int64_t' else 'thorough',
+                                replay=Replay(mode='macro_hyg', extra=[n, ty], **RP)))
     # expect(p) / expect_msg(p, m): the predicate is converted to bool (p != 0) -- for every operand type, also a double between 0 and 1 or an
     # integer whose low bits are zero (a conversion through a narrower or integral type on the way would change the verdict)
     for ty in ('int64_t', 'double', 'uint64_t', 'float'):
